@@ -123,6 +123,16 @@ CHECKS["C07"] = dict(
     level_text="Bounded symbolic execution of GetRIB / doGet / FromGetResponses from symbolic RIB contents: scope, filter, tagging, once-only and modelled-field payload equality are decided for every symbolic key/value.",
     level_note=_RIBNOTE)
 
+CHECKS["C13"] = dict(
+    runs=[dict(pkg="client", harness="VfC13_accounting_q", reach=["end", "pre-built", "await-ok", "await-errors"], thorough=dict(skip=True),
+               bounds="client in RIB-ack or FIB-ack mode after StartSending; 0-2 operations queued (symbolic ids - equal ids included -, ADD/REPLACE, IPv4/group/MPLS, symbolic key), handshake answered or not; ONE response of any shape: 1-2 results (symbolic id, status in {FAILED,RIB_PROGRAMMED,FIB_PROGRAMMED,FIB_FAILED,UNSET}), election, session parameters, or mixed content; then the convergence check"),
+          dict(pkg="client", harness="VfC13_accounting_t", reach=["end", "pre-built", "await-ok", "await-errors"], quick=dict(skip=True),
+               bounds="as accounting_q with all five entry kinds, all three operation types and TWO consecutive responses (RIB-before-FIB sequences, duplicate terminal results, results after completion)")],
+    assumptions=["responses are delivered to handleModifyResponse as the receiver goroutine does (errors recorded with addReadErr); goroutine scheduling of Connect is C14's subject",
+                 "AwaitConverged is only called when it is specified to return (converged or errors recorded); otherwise isConverged is checked directly"],
+    level_text="Bounded symbolic execution of the client's accounting (Q / handleModifyRequest / handleModifyResponse / clearPendingOp / isConverged / AwaitConverged) against a ghost model: every id is pending or completed exactly once for every symbolic id/status combination.",
+    level_note="Trusted: go/ssa, gosym (sync/atomic, time.Sleep stubs), z3.")
+
 NOT_APPLICABLE = {
     "C19": "whole compliance-suite runs over in-memory gRPC against wrapped servers in every order: a whole-program execution through gRPC, testing and reflection; no bounded symbolic encoding within reach (DESIGN.md §8)",
 }
